@@ -7,7 +7,7 @@ git -C /repo worktree add -q --detach $wt HEAD 2>/dev/null
 git -C $wt apply "$patch" || { echo "patch does not apply"; git -C /repo worktree remove --force $wt; exit 3; }
 mkdir -p /tmp/tryseed-ev-$$; cp /verif/known_findings.txt /tmp/tryseed-ev-$$/ 2>/dev/null
 for p in "$@"; do
-  /verif/bin/arvcheck -prop $p -repo $wt -verif /tmp/tryseed-ev-$$ 2>&1 | grep -E "^(FAIL|UNDECIDED|VIOLATION|PASS|KNOWN|load|checker)" | sed "s#$wt/##g"
+  ${ARVCHECK:-/verif/bin/arvcheck} -prop $p -repo $wt -verif /tmp/tryseed-ev-$$ 2>&1 | grep -E "^(FAIL|UNDECIDED|VIOLATION|PASS|KNOWN|load|checker|INLINE)" | sed "s#$wt/##g"
 done
 
 git -C /repo worktree remove --force $wt; rm -rf /tmp/tryseed-ev-$$
